@@ -10,7 +10,7 @@
        agreeb top (griffe_sched top ms order) (py_import ms order) = true
    for all programs that satisfy the decidable side conditions wf_prog / wf_run is C05_composition below. *)
 From Coq Require Import List ZArith String Bool Arith.
-From Verif Require Import Lib.Sexp Model.C05_imports Model.C05_wf Proofs.C05_imports Proofs.C05_resolve Proofs.C05_main Proofs.C05_real Proofs.C05_realw.
+From Verif Require Import Lib.Sexp Model.C05_imports Model.C05_wf Proofs.C05_imports Proofs.C05_resolve Proofs.C05_main Proofs.C05_real Proofs.C05_realw Gen.C05_ladder Proofs.C05_ladder.
 Import ListNotations.
 Open Scope string_scope. Open Scope list_scope. Open Scope nat_scope.
 
@@ -317,3 +317,25 @@ Theorem C05_load_is_two_schedules_not_vacuous :
   exists l, griffe_load "q" w13 = Done l /\ l_table l = fold_left (sched_wild_step fl "q") ow13 tx.
 Proof. exact load_two_schedules_not_vacuous. Qed.
 Print Assumptions C05_load_is_two_schedules_not_vacuous.
+
+(* ---- the model against definitions regenerated from the source on every run (Gen/C05_ladder.v) -------------------------------------- *)
+Theorem C05_wildcard_exposed_is_generated :
+  forall st n m,
+  wildcard_exposed st n m =
+  gen_is_wildcard_exposed true true true (exports st) n (is_alias m) (is_module_obj m) (mem_str n (imports st)).
+Proof. exact wildcard_exposed_is_generated. Qed.
+Print Assumptions C05_wildcard_exposed_is_generated.
+
+Theorem C05_line_rule_is_generated :
+  (forall old new, gen_overwrite old new = Nat.ltb old new) /\
+  (forall ms e old, lookup (e_name e) ms = Some old ->
+     basic_apply_one ms e = if gen_overwrite (member_lineno old) (e_ln e) then assign (e_name e) (wrap e) ms else ms).
+Proof. split; [exact overwrite_is_generated|exact basic_apply_one_uses_generated_rule]. Qed.
+Print Assumptions C05_line_rule_is_generated.
+
+Theorem C05_skipped_import_is_generated :
+  forall mp is_init st ln tgt n asn has_module level,
+  gen_skip_bare_import has_module level (match asn with Some _ => true | None => false end) is_init = true ->
+  visit_stmt mp is_init st (SFrom ln tgt n asn (negb has_module && Nat.eqb level 1)) = st.
+Proof. exact visit_skips_what_the_source_skips. Qed.
+Print Assumptions C05_skipped_import_is_generated.
